@@ -468,10 +468,100 @@ def _doc_tables():
     for a, b, c in ((1, 3, 0), (1, 5, 2), (7, 5, 8), (7, 3, 6)):
         dg |= ((idx >> a) & 1).astype(bool) & ((idx >> b) & 1).astype(bool) & ~((idx >> c) & 1).astype(bool)
     d["diag"] = dg
+    d["endpoints"] = _CENTER & (pop <= 2)
+    e4 = None
+    d["branchpoints"] = np.array([bool(_CENTER[i]) and scind.label(pat(i & ~16))[1] > 2 for i in range(512)])
+    d["spur1"] = _CENTER & ~((pop == 2) & ((idx & 15) != 0))
+    d["spur2"] = _CENTER & ~((pop == 2) & ((idx & (32 + 64 + 128 + 256)) != 0))
     return d
 
 
 _DOC_TABLES = {}
+
+
+def _struct_img(rng):
+    """images on which the operations need SEVERAL rounds: blobs with straight or bent tails in any of the eight
+    directions, long one-pixel lines, nested rings, thick blobs, isolated points (thicken/bridge grow for many rounds),
+    diagonal stripes, and mixtures"""
+    H, W = int(rng.randint(5, 15)), int(rng.randint(5, 15))
+    img = np.zeros((H, W), bool)
+    dirs = [(-1, -1), (-1, 0), (-1, 1), (0, -1), (0, 1), (1, -1), (1, 0), (1, 1)]
+
+    def put(y, x):
+        if 0 <= y < H and 0 <= x < W:
+            img[y, x] = True
+    for _ in range(int(rng.randint(1, 4))):
+        kind = rng.choice(["tailblob", "tailblob", "line", "rings", "thick", "points", "stripes", "bent"])
+        y, x = int(rng.randint(H)), int(rng.randint(W))
+        if kind in ("tailblob", "bent"):
+            b = int(rng.randint(1, 4))
+            img[y:y + b, x:x + b] = True
+            for _t in range(int(rng.randint(1, 3))):
+                dy, dx = dirs[rng.randint(8)]
+                cy, cx = y + (b - 1 if dy > 0 else 0), x + (b - 1 if dx > 0 else 0)
+                n = int(rng.randint(2, 9))
+                for k in range(1, n + 1):
+                    if kind == "bent" and k == n // 2 + 1:
+                        dy, dx = dirs[rng.randint(8)]
+                    cy, cx = cy + dy, cx + dx
+                    put(cy, cx)
+        elif kind == "line":
+            dy, dx = dirs[rng.randint(8)]
+            for k in range(int(rng.randint(3, 12))):
+                put(y + k * dy, x + k * dx)
+        elif kind == "rings":
+            for r in range(0, int(rng.randint(2, 6)), 2):
+                y0, y1, x0, x1 = y - r, y + r, x - r, x + r
+                for yy in range(y0, y1 + 1):
+                    put(yy, x0); put(yy, x1)
+                for xx in range(x0, x1 + 1):
+                    put(y0, xx); put(y1, xx)
+        elif kind == "thick":
+            b = int(rng.randint(3, 8))
+            img[y:y + b, x:x + b] = True
+            if rng.rand() < 0.5:
+                put(y + b // 2, x + b // 2); img[min(H - 1, y + b // 2), min(W - 1, x + b // 2)] = False
+        elif kind == "points":
+            for _k in range(int(rng.randint(1, 5))):
+                put(int(rng.randint(H)), int(rng.randint(W)))
+        else:
+            off = int(rng.randint(2, 4))
+            yy, xx = np.indices((H, W))
+            img |= ((yy + xx) % off == 0) & (rng.rand(H, W) < 0.9)
+    if rng.rand() < 0.15:
+        img = ~img
+    if rng.rand() < 0.2:
+        img ^= rng.rand(H, W) < 0.03
+    return img
+
+
+def _rounds(op, img, mask, k):
+    """(rule output after k rounds or at the fixed point, number of the last round that still changed the image) by
+    the documented rule of the operation - generator-side reference used to pick and to COUNT multi-round cases"""
+    t = _DOC_TABLES
+    fillv = op in ("fill", "fill4")
+    cur = np.array(img, bool)
+    if mask is not None and op != "life":
+        cur = cur.copy(); cur[~np.array(mask, bool)] = fillv
+    if op in ("endpoints", "branchpoints"):
+        k = 1
+    if op in ("hbreak", "vbreak", "remove"):
+        k = None
+    limit = 80 if k is None else k
+    if op == "spur" and k is None:
+        limit = int(cur.sum())
+    last = 0
+    for r in range(1, limit + 1):
+        if op == "spur":
+            nxt = _ref_step(_ref_step(cur, t["spur1"], False), t["spur2"], False)
+        else:
+            nxt = _ref_step(cur, t[op], fillv)
+        if not np.array_equal(nxt, cur):
+            last = r
+        elif k is None and op != "spur":
+            return cur, last, True
+        cur = nxt
+    return cur, last, (k is not None or op == "spur")
 
 
 def _kind_table(rng, kind):
@@ -562,6 +652,36 @@ def generate(ctx):
                     continue
                 c["it"] = int(rng.choice([1, 2, 3]))
             cases.append(c)
+    # (b2) every wrapper with iterations in {default, 1, 2, 3, 5, None where it converges} on structured images that
+    # need several rounds; the evidence counts, per wrapper, the calls whose LAST requested round still changes the image
+    for op in OPS:
+        ctx.count("multi-round:%s (round >= 2 still changes the image)" % op, 0)    # zero stays visible
+        for it in ("default", 1, 2, 3, 5, -1):
+            made = 0
+            tries = 0
+            while made < ctx.n(8, 60) and tries < ctx.n(80, 600):
+                tries += 1
+                img = _struct_img(rng)
+                c = _op_case(rng, img, op)
+                c["it"] = "default" if op in ("endpoints", "branchpoints") else it
+                if rng.rand() < 0.7:
+                    c["mask"] = None
+                k = None if c["it"] == -1 else (1 if c["it"] == "default" else c["it"])
+                _, last, conv = _rounds(op, img, c["mask"], k)
+                if not conv:
+                    ctx.count("excluded:wrapper-call-that-does-not-terminate")
+                    continue
+                # prefer calls whose requested rounds are all active (for None: at least two active rounds)
+                want = 2 if k is None else k
+                if op not in ("endpoints", "branchpoints", "hbreak", "vbreak", "remove") and last < want and tries < ctx.n(60, 450):
+                    continue
+                cases.append(c)
+                made += 1
+                ctx.count("wrapper-iterations:%s:%s" % (op, "None" if it == -1 else it))
+                if last >= 2:
+                    ctx.count("multi-round:%s (round >= 2 still changes the image)" % op)
+                if last >= 3:
+                    ctx.count("multi-round:%s (round >= 3 still changes the image)" % op)
     # (c) random table_lookup calls
     for _ in range(ctx.n(1400, 24000)):
         H, W = _rand_shape(rng)
@@ -587,8 +707,9 @@ def generate(ctx):
               ("extensive", "int32"), ("builtin", "uint8")]
     for n, (H, W, dens) in enumerate(big_shapes):
         # quick: three of the six (table class, dtype) combinations per shape, rotating, so that every path is taken
-        for kind, dt in (combos if not ctx.quick() else [combos[(n + j) % 6] for j in (0, 2, 4)] if n % 2 == 0
-                         else [combos[(n + j) % 6] for j in (0, 2, 4)]):
+        # all six (table class, dtype) combinations on the thin 1100-long shapes in the thorough tier; three of them,
+        # rotating so that every path is taken, elsewhere (quick tier, and the images with many pixels)
+        for kind, dt in (combos if (not ctx.quick() and H * W < 10000) else [combos[(n + j) % 6] for j in (0, 2, 4)]):
             img = rng.rand(H, W) < dens
             img[0, 0] = img[-1, -1] = img[0, -1] = img[-1, 0] = True
             if kind == "builtin":
@@ -1071,13 +1192,18 @@ def shrink_candidates(case):
             if steps and steps[0].get("reuse"):
                 steps[0].pop("reuse")
             return {"fn": "seq", "steps": steps, "iso": True}
-        if len(st) > 1:
+        n = len(st)
+        if n > 3:
+            yield mk(st[:n // 2])
+            yield mk(st[n // 2:])
+        if n > 1:
             yield mk(st[:-1])
             yield mk(st[1:])
-            for k in range(1, len(st) - 1):
+            mids = list(range(1, n - 1))
+            for k in mids[:: max(1, len(mids) // 6)][:6]:
                 yield mk(st[:k] + st[k + 1:])
-        for k in range(max(0, len(st) - 2), len(st)):
-            for sub in itertools.islice(shrink_candidates(st[k]), 6):
+        for k in range(max(0, n - 2), n):
+            for sub in itertools.islice(shrink_candidates(st[k]), 4):
                 if sub["fn"] == st[k]["fn"]:
                     yield mk(st[:k] + [sub] + st[k + 1:])
         return
